@@ -311,6 +311,14 @@ func (g *PacketGen) opRecv() {
 	g.stat("recv.pkt." + mlabel)
 	g.stat("recv.proof." + plabel)
 	g.stat("recv.res." + ErrClass(res.Codespace, res.Code))
+	if res.Code == 0 && ps.Kind == "honest" {
+		if p.Port != t.p.Port {
+			w.hit("C13", "recv-accepted-with-port-edited "+pkeyStr(p))
+		}
+		if p.RelayChain != t.p.RelayChain {
+			w.hit("C13", "recv-accepted-with-relay-edited "+pkeyStr(p))
+		}
+	}
 	if res.Code == 0 {
 		t.recvOn[c.ChainName] = true
 		if a := writtenAck(res); a != nil && t.ack == nil {
@@ -375,6 +383,14 @@ func (g *PacketGen) opAck() {
 	g.stat("ack.ack." + alabel)
 	g.stat("ack.proof." + plabel)
 	g.stat("ack.res." + ErrClass(res.Codespace, res.Code))
+	if res.Code == 0 && ps.Kind == "honest" {
+		if p.Port != t.p.Port {
+			w.hit("C13", "ack-accepted-with-port-edited "+pkeyStr(p))
+		}
+		if p.RelayChain != t.p.RelayChain {
+			w.hit("C13", "ack-accepted-with-relay-edited "+pkeyStr(p))
+		}
+	}
 	if res.Code == 0 {
 		t.ackedOn[c.ChainName] = true
 	}
@@ -461,6 +477,10 @@ func beU64(b []byte) uint64 {
 // Run executes one scenario of nOps operations.
 func (g *PacketGen) Run(nOps int) {
 	g.SetupTopology()
+	g.runOps(nOps)
+}
+
+func (g *PacketGen) runOps(nOps int) {
 	for i := 0; i < nOps; i++ {
 		switch x := g.r.Intn(100); {
 		case x < 22:
@@ -605,6 +625,46 @@ func (g *PacketGen) RunDeep() {
 			g.opRecv()
 		} else {
 			g.opAck()
+		}
+	}
+}
+
+// RunC13 replays the two witnesses of Props/C13 on real chains (fully connected 3-chain world):
+// a packet naming relay chain 1 is delivered to its destination with the relay field removed;
+// another one is delivered to the relay chain with its port edited.
+func (g *PacketGen) RunC13() {
+	w := g.w
+	a, r, c := w.Chains[0], w.Chains[1], w.Chains[2]
+	_ = w.SetRules(r, []string{"*,*,*"})
+	send := func() *tpkt {
+		data, tok := g.randData()
+		seq := a.App.TIBCKeeper.PacketKeeper.GetNextSequenceSend(a.GetContext(), a.ChainName, c.ChainName)
+		p := packettypes.NewPacket(data, seq, a.ChainName, c.ChainName, r.ChainName, "tibcmock")
+		if w.KSend(a, p, tok) != nil {
+			return nil
+		}
+		t := &tpkt{p: p, tok: tok, sentOn: a.ChainName, recvOn: map[string]bool{}, ackedOn: map[string]bool{}}
+		g.pkts = append(g.pkts, t)
+		return t
+	}
+	if t := send(); t != nil {
+		h := w.Update(c, a)
+		p := t.p
+		p.RelayChain = ""
+		ps := ProofSpec{Kind: "honest", Chain: a.ChainName, Height: h, Key: "commit", Src: p.SourceChain, Dst: p.DestinationChain, Seq: p.Sequence}
+		if res := w.Recv(c, 1, p, t.tok, ps, h); res.Code == 0 {
+			w.hit("C13", "recv-accepted-with-relay-edited "+pkeyStr(p))
+			t.recvOn[c.ChainName] = true
+		}
+	}
+	if t := send(); t != nil {
+		h := w.Update(r, a)
+		p := t.p
+		p.Port = "elsewhere"
+		ps := ProofSpec{Kind: "honest", Chain: a.ChainName, Height: h, Key: "commit", Src: p.SourceChain, Dst: p.DestinationChain, Seq: p.Sequence}
+		if res := w.Recv(r, 1, p, t.tok, ps, h); res.Code == 0 {
+			w.hit("C13", "recv-accepted-with-port-edited "+pkeyStr(p))
+			t.recvOn[r.ChainName] = true
 		}
 	}
 }
